@@ -12,7 +12,8 @@ RULE = ('book stream: histories as C09 applied through Engine.apply_update; afte
         'under the real scheduler with compartment timesteps 1-3 (so updates are in flight when structure changes); '
         'after every tick: tables = hierarchy, published composite = store getters, each process alive at the start of '
         'the tick invoked exactly once, each step alive after the batch run exactly once, nothing deleted invoked; at '
-        'the end an engine rebuilt from the published composite and the current state must continue identically. '
+        'the end an engine rebuilt from the published composite and the current state must continue identically; '
+        'half of the engines are built from a Composite, which must then hold what the engine publishes. '
         'live stream (as C07): the histories issued by a director process or a director STEP inside a running engine '
         'built from its parts or from a generated store; per step phase every kit step that exists at its place when '
         'the phase begins and when it ends must have run exactly once, one created during the phase not at all. '
@@ -51,7 +52,8 @@ def generate(seed, tier, enlarged=False):
             cases.append({'kind': 'hist', 'hist': struct.gen_history(rng, rng.randint(3, 10 if tier == 'quick' else 25))})
         else:
             cases.append({'kind': 'run', 'hist': struct.gen_history(rng, rng.randint(3, 9), allow_bad=False),
-                          'ts': [rng.choice([1, 1, 2, 3]) for _ in range(40)], 'extra': rng.randint(1, 3)})
+                          'ts': [rng.choice([1, 1, 2, 3]) for _ in range(40)], 'extra': rng.randint(1, 3),
+                          'entry': rng.choice(['parts', 'composite'])})
     # steps under structural updates issued by steps of the same phase: the live stream of C07, judged here by
     # its exactly-once-per-phase oracle (and compared with Model/Views.v as there)
     from harness import live
@@ -130,8 +132,16 @@ def run_director(c):
     keep = []
     with contextlib.redirect_stdout(io.StringIO()):
         director = Director()
-        eng = Engine(processes={'holder': director}, topology={'holder': {'A': ('A',), 'B': ('B',)}},
-                     display_info=False)
+        comp = None
+        if c.get('entry') == 'composite':
+            # built from a Composite (with no steps and an empty flow at construction): everything the engine
+            # publishes must also be written back into that Composite
+            from vivarium.core.composer import Composite
+            comp = Composite({'processes': {'holder': director}, 'topology': {'holder': {'A': ('A',), 'B': ('B',)}}})
+            eng = Engine(composite=comp, display_info=False)
+        else:
+            eng = Engine(processes={'holder': director}, topology={'holder': {'A': ('A',), 'B': ('B',)}},
+                         display_info=False)
         nticks = len(hist) + c['extra']
         for tick in range(nticks):
             live_before = {id(p) for p in eng.process_paths.values()}
@@ -179,6 +189,14 @@ def run_director(c):
                 problems.append(('tick %d: published flow differs from the hierarchy: %r vs %r' % (tick, pf, sf),
                                  'divide-inherits-flow' if extra_keys and not (set(sf) - set(pf)) and
                                  all(pf[k] == sf[k] for k in set(pf) & set(sf)) else 'published-flow'))
+            if comp is not None:
+                for name in ('processes', 'steps', 'flow', 'topology'):
+                    if prune(comp[name]) != prune(getattr(eng, name)):
+                        problems.append(('tick %d: the Composite the engine was built from holds %s %r, the engine '
+                                         'publishes %r' % (tick, name, sorted(flat_lists(prune(comp[name]))),
+                                                           sorted(flat_lists(prune(getattr(eng, name))))),
+                                         'composite-not-written-back'))
+                        break
             # invocations
             pcalls = [cid for kind, cid in struct.CALLS if kind in ('P', 'X')]
             if sorted(pcalls) != sorted(live_before):
@@ -194,8 +212,10 @@ def run_director(c):
         if not problems:
             try:
                 state = strip_state(eng.state.get_value())
-                eng2 = Engine(processes=eng.processes, steps=eng.steps, flow=eng.flow, topology=eng.topology,
-                              initial_state=state, display_info=False)
+                src = comp if comp is not None else {'processes': eng.processes, 'steps': eng.steps,
+                                                     'flow': eng.flow, 'topology': eng.topology}
+                eng2 = Engine(processes=src['processes'], steps=src['steps'], flow=src['flow'],
+                              topology=src['topology'], initial_state=state, display_info=False)
                 traj1, traj2 = [], []
                 for _ in range(3):
                     eng.update(1)
